@@ -37,6 +37,7 @@ CONSTANTS
     Band,     \* how many distances beyond the tolerance are checked on each side
     Chunks,   \* number of root states
     ASel,     \* "all": every a in 0..M-1;  "dense": boundary-dense subset
+    CoreDLt,  \* TRUE: OffsetAgreesCore also checks DependsOnDLt on every pair (FALSE: AllLemmas does, on the Heavy a's)
     Emit      \* TRUE: write the (d, lt) table and the replay cases (env C09_TABLE, C09_CASES)
 
 VARIABLE a
@@ -105,8 +106,8 @@ OrdInvertedAcrossWrap == a >= 0 => ForAllB(a, P_Inverted)
 P_Core(x, b) ==
     LET o  == Offset(x, b, M, W)
         t  == Dist(x, b, M)
-        r  == OffsetRep((x - b) % M, x < b, M, W)
-    IN  \/ (L_OffsetAgrees(o, t, W) /\ L_ClosedForm(x, b, o, t, W) /\ L_DependsOnDLt(o, r))
+    IN  \/ /\ L_OffsetAgrees(o, t, W) /\ L_ClosedForm(x, b, o, t, W)
+           /\ (CoreDLt => L_DependsOnDLt(o, OffsetRep((x - b) % M, x < b, M, W)))
         \/ Diag("OffsetAgrees/ClosedForm/DependsOnDLt", x, b)
 OffsetAgreesCore == a >= 0 => ForAllB(a, P_Core)
 (* the value form of the lemma is the lemma *)
@@ -125,7 +126,10 @@ P_All(x, b) ==
            /\ L_ZeroIffEqual(x, b, o) /\ L_OrdAgrees(o, t, W)
            /\ L_OrdIsPlainBeyond(x, b, o, t, W) /\ L_OrdInvertedAcrossWrap(x, b, o, t, M, W)
         \/ Diag("AllLemmas", x, b)
-AllLemmas == a >= 0 => ForAllB(a, P_All)
+(* real instance: on the a's within 100 of 0 / W / H-W / H / H+W / M-W (mod M); scaled: on every a *)
+CDist(x, c) == LET d == (x - c) % M IN IF d > H THEN M - d ELSE d
+Heavy(x) == AllB \/ \E c \in {0, W, H - W, H, H + W, M - W} : CDist(x, c) <= 100
+AllLemmas == (a >= 0 /\ Heavy(a)) => ForAllB(a, P_All)
 
 (* wrapping add / subtract and the offset back to the start *)
 KsAdd == IF AllB THEN 0..(M - 1) ELSE {0, 1, 2, W - 1, W, W + 1, H, M - 1}
